@@ -54,9 +54,8 @@ def _sim(a, b):
 
 def find_aliases(raw):
     """-> {current path: reference path}"""
-    try:
-        ref = json.load(open(TABLE))
-    except Exception:
+    ref = {k: v for k, v in ref_table().items() if not k.startswith('__')}
+    if not ref:
         return {}
     cur = table_of(raw)
     missing = {n: fp for n, fp in ref.items() if n not in cur}
@@ -89,6 +88,70 @@ def find_aliases(raw):
     return out
 
 
+def adt_fields(raw):
+    """{adt path: {field index: field name}} for the crate's own types, from the field projections in the bodies"""
+    out = {}
+
+    def walk(o):
+        if isinstance(o, dict):
+            if 'f' in o and 'n' in o and 'adt' in o and o['adt'] and not o['adt'].startswith('std::'):
+                out.setdefault(o['adt'], {})[str(o['f'])] = o['n']
+            for v in o.values():
+                walk(v)
+        elif isinstance(o, list):
+            for v in o:
+                walk(v)
+    walk(raw['bodies'])
+    return out
+
+
+def find_type_aliases(raw, ref_adts):
+    """crate-internal types that were renamed: {current last segment: reference last segment}"""
+    cur = adt_fields(raw)
+    missing = {a: f for a, f in ref_adts.items() if a not in cur}
+    extra = {a: f for a, f in cur.items() if a not in ref_adts}
+    out = {}
+    for m, fm in missing.items():
+        c = [e for e, fe in extra.items() if fe == {k: v for k, v in fm.items() if k in fe} and len(fe) >= 1 and e.rpartition('::')[0] == m.rpartition('::')[0]]
+        if len(c) == 1:
+            out[c[0].rpartition('::')[2]] = m.rpartition('::')[2]
+    return out
+
+
+def field_aliases(raw, ref_adts):
+    """{(adt, index): reference name} for fields of known types whose name changed (same position)"""
+    cur = adt_fields(raw)
+    out = {}
+    for a, fs in cur.items():
+        rf = ref_adts.get(a)
+        if not rf:
+            continue
+        for i, n in fs.items():
+            if i in rf and rf[i] != n and not n.isdigit():
+                out[(a, i)] = rf[i]
+    return out
+
+
+def rename_fields(raw, fa):
+    def walk(o):
+        if isinstance(o, dict):
+            if 'f' in o and 'n' in o and 'adt' in o and (o['adt'], str(o['f'])) in fa:
+                o['n'] = fa[(o['adt'], str(o['f']))]
+            for v in o.values():
+                walk(v)
+        elif isinstance(o, list):
+            for v in o:
+                walk(v)
+    walk(raw['bodies'])
+
+
+def ref_table():
+    try:
+        return json.load(open(TABLE))
+    except Exception:
+        return {}
+
+
 def apply(txt, aliases):
     for new, old in sorted(aliases.items(), key=lambda kv: -len(kv[0])):
         txt = re.sub(r'(?<![A-Za-z0-9_])%s(?![A-Za-z0-9_])' % re.escape(new), old.replace('\\', '\\\\'), txt)
@@ -101,6 +164,7 @@ if __name__ == '__main__':
     sys.path.insert(0, os.path.dirname(os.path.abspath(__file__)))
     import extract
     tab = {}
+    adts = {}
     for feat in ('default', 'serde', 'nostd'):
         for prof in ('rel', 'dbg'):
             try:
@@ -110,7 +174,11 @@ if __name__ == '__main__':
                 continue
             txt = open(os.path.join(d, 'bigdecimal.json')).read()
             txt = re.sub(r'\b(?:core|alloc)::(?=[a-z_]+::|[A-Z])', 'std::', txt)
-            for k, v in table_of(json.loads(txt)).items():
+            raw_ = json.loads(txt)
+            for k, v in table_of(raw_).items():
                 tab.setdefault(k, v)
+            for a, fs in adt_fields(raw_).items():
+                adts.setdefault(a, {}).update(fs)
+    tab['__adts__'] = adts
     json.dump(tab, open(TABLE, 'w'), indent=0, sort_keys=True)
     print('%d reference functions written to %s' % (len(tab), TABLE))
